@@ -49,9 +49,17 @@ def code(name, arr):
     return out
 
 
-def observe(st):
-    return {"npid": int(st.npid), "pid": [int(p) for p in st.pid],
-            "inst": [code(c, st[c]) for c in ICOLS], "pvar": [code(c, st[c]) for c in PCOLS]}
+def observe(st, how="dict"):
+    """the full state; read through the storage dictionary, item access or attribute access (three spellings of a
+    read — none of them may have an effect on the state; which one is used is part of the case)"""
+    if how == "item":
+        get = lambda c: st[c]  # noqa: E731
+    elif how == "attr":
+        get = lambda c: getattr(st, c)  # noqa: E731
+    else:
+        get = lambda c: st.variables[c]  # noqa: E731
+    return {"npid": int(st.npid), "pid": [int(p) for p in get("pid")],
+            "inst": [code(c, get(c)) for c in ICOLS], "pvar": [code(c, get(c)) for c in PCOLS]}
 
 
 def pyval(name, v):
@@ -225,14 +233,15 @@ def eval_case(desc, ctx):
     ref = Ref()
     ints = [len(ICOLS), len(PCOLS)] + [IDEF.get(c, NAN) for c in ICOLS] + [PDEF.get(c, NAN) for c in PCOLS] + [len(desc["ops"])]
     oracle = None
-    cur = observe(st)
+    how = desc.get("obs", "dict")
+    cur = observe(st, how)
     removed, nontriv = False, False
     for i, op in enumerate(desc["ops"]):
         ints += enc_op(op, cur)
         before = len(cur["pid"])
         status = apply_real(st, op)
         ref.apply(op)
-        cur = observe(st)
+        cur = observe(st, how)
         ints += enc_obs(cur)
         if op[0] == "compactify" and len(cur["pid"]) < before:
             removed = True
@@ -348,9 +357,9 @@ def gen_cases(ctx):
         nrand, lens, exh = 1500, [3, 8, 15, 30, 80, 200], 4
     for L in range(1, exh + 1):
         for seq in itertools.product(ALPHABET, repeat=L):
-            out.append({"k": "ops", "gen": f"exhaustive-{L}", "ops": expand(seq)})
+            out.append({"k": "ops", "gen": f"exhaustive-{L}", "ops": expand(seq), "obs": ["dict", "attr", "item"][len(out) % 3]})
     for i in range(nrand):
-        out.append({"k": "ops", "gen": "random", "ops": rand_ops(rng, rng.choice(lens))})
+        out.append({"k": "ops", "gen": "random", "ops": rand_ops(rng, rng.choice(lens)), "obs": ["dict", "attr", "item"][i % 3]})
     import c06
 
     for d in c06.gen_cases(ctx)[: (25 if ctx.quick else 200)]:
